@@ -220,11 +220,11 @@ def run(ck):
                 return ('atom', ('unresolved', expr.id))
             if isinstance(d, ast.Call) and call_name(d) == 'build_connectivity_matrix':
                 a = [u(x) for x in d.args] + ['{}={}'.format(k.arg, u(k.value)) for k in d.keywords]
-                ok = a == [molp, 'res_min_dist', 'node_to_idx', 'selected_nodes=selection']
+                ok = a in ([molp, 'res_min_dist', 'node_to_idx', 'selected_nodes=selection'], [molp, 'res_min_dist', 'node_to_idx', 'selection'])
                 return ('atom', 'CONN' if ok else ('connectivity with other arguments', tuple(a)))
             if isinstance(d, ast.Call) and call_name(d) == 'build_pair_matrix':
                 a = [u(x) for x in d.args] + ['{}={}'.format(k.arg, u(k.value)) for k in d.keywords]
-                ok = a == [molp, 'domain_criterion', 'idx_to_node', 'selected_nodes=selection']
+                ok = a in ([molp, 'domain_criterion', 'idx_to_node', 'selected_nodes=selection'], [molp, 'domain_criterion', 'idx_to_node', 'selection'])
                 return ('atom', 'DOM' if ok else ('pair matrix with other arguments', tuple(a)))
             return mask_formula(d, resolve)
         return ('atom', ('unrecognised matrix', u(expr)))
@@ -338,7 +338,7 @@ def run(ck):
         c, st, cond, env = calls[0]
         want = {'lower_bound': 'self.lower_bound', 'upper_bound': 'self.upper_bound', 'decay_factor': 'self.decay_factor', 'decay_power': 'self.decay_power',
                 'base_constant': 'self.base_constant', 'minimum_force': 'self.minimum_force', 'domain_criterion': 'self.domain_criterion'}
-        ok = all(u(kwarg(c, k)) == v for k, v in want.items()) and [u(a) for a in c.args] == ['molecule', 'self.selector'] and flow.valid(cond)
+        ok = all(u(kwarg(c, k)) == v for k, v in want.items()) and [u(a) for a in c.args[:2]] == ['molecule', 'self.selector'] and flow.valid(cond)
     ck.ob('PROV-settings', mod.loc(rmol), ok, 'the numeric settings, the selector and the domain criterion reach apply_rubber_band exactly as configured', key='PROV-settings|passthrough')
     for name, var in (('res_min_dist', 'self.res_min_dist_variable'), ('bond_type', 'self.bond_type_variable')):
         good = bool(calls) and u(kwarg(calls[0][0], name)) == name
@@ -390,6 +390,24 @@ def run(ck):
                 elif k == ('GtE', hi, R):
                     names[k] = 'R_HI'
             ok = len(names) == len(flow.atoms_of(rel[0][1])) == 4 and flow.equivalent(flow.rename(rel[0][1], names), flow.parse_formula('L_LO and L_HI and R_LO and R_HI'))[0]
+    if not ok and len(inner) == 1 and isinstance(mk.body[-1], ast.Return) and u(mk.body[-1].value) == inner[0].name:
+        # any other spelling of the criterion: the closure is interpreted on every pair of residue numbers 0..10 against two regions (one written high-low)
+        sr = inner[0]
+        ck.analysed(mod, sr)
+        regions_ = [(2, 5), (9, 7)]
+        good = len(sr.args.args) == 3
+        try:
+            for a_ in range(0, 11):
+                for b_ in range(0, 11):
+                    nodes_ = {'x': {'resid': a_}, 'y': {'resid': 99, '_old_resid': b_}}
+                    env_ = {mk.args.args[0].arg: regions_, sr.args.args[0].arg + '.nodes': nodes_, sr.args.args[1].arg: 'x', sr.args.args[2].arg: 'y'}
+                    got = interp.call(sr.body, env_)
+                    want = any(min(r_) <= a_ <= max(r_) and min(r_) <= b_ <= max(r_) for r_ in regions_)
+                    if bool(got) is not want or not isinstance(got, bool):
+                        good = False
+        except (interp.Unsupported, KeyError, TypeError):
+            good = False
+        ok = good
     ck.ob('DT-domain', mod.loc(mk), ok, 'region domain: two atoms share a domain iff SOME region contains both input residue numbers (bounds inclusive, either order); '
           'every region is tried', key='DT-domain|same_region')
     shared.truthy_zero(ck, [RB])
